@@ -75,9 +75,12 @@ def _run_base(ctx):
         ev = Evaluator({'config.use_color': use_color, 'config.color_words': color_words, 'git_diff_print_cmd': gcmd})
         _exec_block(ev, dg.body)
         cmd = ev.env.get('cmd', UNKNOWN)
-        ok = isinstance(cmd, str) and '--color' not in cmd
+        toks = cmd.split() if isinstance(cmd, str) else []
+        asked = [t for t in toks if t.startswith('--color')]
+        ok = isinstance(cmd, str) and not asked and '--no-color' in toks
         ctx.inst('R16.1', PP + ':diff_render_with_git', 'use_color=%s color_words=%s -> %r' % (use_color, color_words, cmd), ok,
-                 'git is not asked for colour' if ok else 'git is still asked for coloured output with colour disabled', dg)
+                 'git is told --no-color' if ok else ('git is still asked for coloured output with colour disabled' if asked or not isinstance(cmd, str) else
+                                                     'git is not told --no-color: with color.ui / color.diff = always in the user\'s git configuration it colours its output although colour is disabled'), dg)
     for name, val in m.assigns.items():
         v = const_val(val[-1])
         if isinstance(v, str) and '--color' in v and name != 'git_diff_print_cmd':
@@ -111,10 +114,9 @@ def _run_base(ctx):
              'all patchable container kinds are rendered' if ok else 'a container kind a patch can descend into is not rendered', pd)
     for name, fallback in (('diff_render', 'diff_render_with_difflib'), ('merge_render', 'builtin_merge_render')):
         fn = repo.func('%s:%s' % (PP, name))
+        from ..util import final_fallback
         lastif = [s for s in fn.body if isinstance(s, ast.If)][-1]
-        arms, orelse = if_chain(lastif)
-        ok = bool(orelse) and isinstance(orelse[-1], ast.Return) and isinstance(orelse[-1].value, ast.Call) and \
-            ('func', '%s:%s' % (PP, fallback)) in cg.resolve(orelse[-1].value.func, fn)
+        ok = final_fallback(repo, cg, fn, '%s:%s' % (PP, fallback))
         ctx.inst('R16.2', '%s:%s' % (PP, name), 'else -> %s' % fallback, ok, 'always a renderer' if ok else
                  'no unconditional built-in fallback: rendering fails where the external tools are absent', lastif)
     sp = repo.func(PP + ':PrettyPrintConfig.should_ignore_path')
@@ -409,3 +411,7 @@ def run(ctx):
     check_op_fields(ctx, 'R16.10', ['nbdime.prettyprint'])
     lexer_name_is_a_string(ctx, 'R16.11')
     stream_error_handlers(ctx, 'R16.12')
+
+
+from .extra import with_extra  # noqa: E402
+run = with_extra('C16', run)
